@@ -188,6 +188,17 @@ theorem addChild_kidsDone (c : Call) (rest : Calls) (fs : Fs) :
     Fs.kidsDone rest (Fs.addChild (dur c) fs) = Fs.kidsDone (.cons c rest) fs := by
   simp [Fs.kidsDone, Fs.addChild, childTime]
 
+theorem map_addr_addChild (o : Option Fs) (d : Nat) :
+    (o.map (Fs.addChild d)).map (·.addr) = o.map (·.addr) := by cases o <;> rfl
+
+theorem map_kidsDone_nil (o : Option Fs) : o.map (Fs.kidsDone .nil) = o := by cases o <;> rfl
+
+theorem map_addChild_kidsDone (c : Call) (rest : Calls) (o : Option Fs) :
+    (o.map (Fs.addChild (dur c))).map (Fs.kidsDone rest) = o.map (Fs.kidsDone (.cons c rest)) := by
+  cases o with
+  | none => rfl
+  | some fs => simp [addChild_kidsDone]
+
 mutual
 theorem run_call : ∀ (c : Call) (t : Task) (n d : Nat), t.sc = n → t.lost = false →
     (t.fset = true ∨ (n = 0 ∧ d = 0)) → n + c.height ≤ t.stk.length →
@@ -239,7 +250,7 @@ theorem run_call : ∀ (c : Call) (t : Task) (n d : Nat), t.sc = n → t.lost = 
         intro k hk'
         rw [exitStk_below _ _ _ _ _ hk', hbelow k hk']
         split
-        · cases t.stk[k]? <;> rfl
+        · exact map_addr_addChild _ _
         · rfl
       simp only [upds, ihU, hctx, exitUpd, isRec_eq, hc]
     · refine ⟨rfl, ?_, ihP.lost, Or.inl hKf, ?_, ?_⟩
@@ -261,7 +272,7 @@ theorem run_calls : ∀ (cs : Calls) (t : Task) (n d : Nat), t.sc = n → t.lost
     simp only [evCalls, runT]
     exact ⟨hs, rfl, hl, hf, rfl, fun k _ => by
       by_cases h : k + 1 = n
-      · simp only [h, if_true, Fs.kidsDone, childTime]; cases t.stk[k]? <;> rfl
+      · simp only [h, if_true, map_kidsDone_nil]
       · simp [h]⟩
   | .cons c rest, t, n, d, hs, hl, hf, hh => by
     have hh1 : n + c.height ≤ t.stk.length := by
@@ -277,7 +288,7 @@ theorem run_calls : ∀ (cs : Calls) (t : Task) (n d : Nat), t.sc = n → t.lost
       intro k hk'
       rw [h1P.below k hk']
       split
-      · cases t.stk[k]? <;> rfl
+      · exact map_addr_addChild _ _
       · rfl
     obtain ⟨h2U, h2P⟩ := run_calls rest r1.1 n d h1P.sc h1P.lost h1P.fset (by rw [h1P.len]; exact hh2)
     refine ⟨?_, ?_⟩
@@ -287,11 +298,8 @@ theorem run_calls : ∀ (cs : Calls) (t : Task) (n d : Nat), t.sc = n → t.lost
       intro k hk'
       rw [h2P.below k hk', h1P.below k hk']
       split
-      · rw [Option.map_map]
-        congr 1
-        funext fs
-        exact addChild_kidsDone c rest fs
-      · trivial
+      · exact map_addChild_kidsDone c rest _
+      · rfl
 end
 
 end Uft.Report
